@@ -8,7 +8,7 @@ from ..interp import cval, has_const
 from ..kinds import is_cart, is_frac
 from ..source import norm_text
 from .common import bound_args, linear, nonneg_form, parse_sx, return_cases, walk_no_nested
-from .geo import all_geos, geo_text, kind_errors, uniq_events
+from .geo import all_geos, geo_text, kind_errors, under, uniq_events
 
 FT = 'gemdat.transitions.Transitions.from_trajectory'
 CAS = 'gemdat.transitions._calculate_atom_states'
@@ -30,7 +30,7 @@ def check(ctx):
     ctx.doc('R6', 'the neighbour search is exact for the cells it can receive (PeriodicKDTree needs a validated box)')
     it = ctx.entry(FT)
     fcas = ctx.fn(CAS)
-    in_cas = lambda f: f.qualname == CAS or f.qualname == 'gemdat.utils.integer_remap'
+    in_cas = under(CAS, 'gemdat.utils.integer_remap')
 
     # ---- R1 frame agreement
     trees = uniq_events(it, {'kdtree_new'}, in_cas)
@@ -94,7 +94,7 @@ def check(ctx):
                 ctx.ob('R2', fcas, e['node'], None, 'unrecognised palette for the site-number lookup')
                 flagged = True
     # the value written into the state array
-    stores = [e for e in uniq_events(it, {'store'}, lambda f: f.qualname == CAS) if e['kind'] == 'sub']
+    stores = [e for e in uniq_events(it, {'store'}, under(CAS)) if e['kind'] == 'sub']
     ctx.floor('R5', 1)
     for e in stores:
         base, idx, val = e['base'], e['index'], e['value']
@@ -199,8 +199,8 @@ def check_radius(ctx):
     fi = ctx.fn(CSR)
     it = ctx.entry(CSR)
     ctx.floor('R4', 3)
-    kind_errors(ctx, 'R4', it, lambda f: f.qualname == CSR, strict=True)
-    dists = uniq_events(it, {'pbc_distance'}, lambda f: f.qualname == CSR)
+    kind_errors(ctx, 'R4', it, under(CSR), strict=True)
+    dists = uniq_events(it, {'pbc_distance'}, under(CSR))
     if not dists and not any(o.rule.endswith('R4') and o.status == 'violated' for o in ctx.obs):
         ctx.ob('R4', fi, 'pair distances', None, 'pair distances do not come from a periodic distance call')
     for e in dists:
